@@ -2,7 +2,8 @@
   Models of afero.Walk (path.go, as repaired: a SkipDir that reaches the top is not an error) and of
   path/filepath.Walk (Go 1.23), over a directory tree whose children are kept in lexical order
   (both implementations sort the names they read), with a callback that may depend on the whole
-  history of visits.  `SkipAll` is outside the model (the property speaks of SkipDir and errors).
+  history of visits.  `SkipAll` (Go 1.20) is the reserved error code 0: an ordinary error inside
+  the walk, turned into success at the top by both implementations.
 -/
 import AferoVerif.Model.Path
 namespace AferoVerif.Walk
@@ -92,9 +93,14 @@ def walkSF (cb : Callback) (dir : Str) (vs : List Visit) : Forest → R
     | .error c => ⟨r.visits, .error c⟩
 end
 
-/-- top level: a SkipDir that reaches the top is not an error -/
+/-- the callback's `filepath.SkipAll`: inside both walks it is an error like any other (it is not
+    tested for, it travels up); it is modelled as the reserved error code 0 -/
+def Action.skipAll : Action := .error 0
+
+/-- top level: a SkipDir — or a SkipAll — that reaches the top is not an error -/
 def topOut : Outcome → Outcome
   | .skipDir => .ok
+  | .error 0 => .ok
   | o => o
 def top (r : R) : R := ⟨r.visits, topOut r.out⟩
 
